@@ -64,6 +64,13 @@ def _clauses_for(prop):
 
 def pick_language(rng, tier, p_corelang=0.02, gen_cfg=None):
     r = rng.random()
+    if tier == 'thorough':
+        p_corelang *= 1.5
+        gen_cfg = dict(gen_cfg or {})
+        if rng.random() < 0.3:
+            gen_cfg.setdefault('max_types', 8)
+            gen_cfg['max_types'] = max(gen_cfg['max_types'], 7)
+            gen_cfg['max_assocs'] = 8
     if r < p_corelang:
         return corpus('corelang'), 'corelang'
     if r < p_corelang + 0.08:
@@ -106,6 +113,13 @@ def new_run_for(prop, rng, tier):
             'neo_ingest_graph': 0,
         },
     }
+    cfg['max_assets'] = 8
+    cfg['max_assocs'] = 10
+    if tier == 'thorough' and src != 'corelang' and rng.random() < 0.5:
+        # deeper bounds, not only more runs
+        cfg['steps'] = rng.randint(40, 140)
+        cfg['max_assets'] = rng.choice([8, 12, 16])
+        cfg['max_assocs'] = rng.choice([10, 16, 24])
     if prop == 'C06':
         cfg['p_invalid'] = rng.choice([0.3, 0.5])
     if prop == 'C19':
@@ -552,7 +566,7 @@ class ModelWorld(BaseWorld):
         return False
 
     def gen_add_asset(self, rng, mi, ref):
-        if len(ref.order) >= 8 and rng.random() < 0.8:
+        if len(ref.order) >= self.cfg.get('max_assets', 8) and rng.random() < 0.8:
             return None
         types = self.L.concrete() if rng.random() < 0.9 else self.L.order
         t = rng.choice(types)
@@ -629,7 +643,7 @@ class ModelWorld(BaseWorld):
     def gen_add_assoc(self, rng, mi, ref):
         if not self.L.assocs or not ref.order:
             return None
-        if len(ref.assoc_order) >= 10 and rng.random() < 0.8:
+        if len(ref.assoc_order) >= self.cfg.get('max_assocs', 10) and rng.random() < 0.8:
             return None
         p_inv = self.cfg['p_invalid']
         # choose an association class that has candidates on both sides
